@@ -188,10 +188,12 @@ func verifyFunc(w *world, fn *ssa.Function, lite bool, depth int, exclude []stri
 				}
 			}
 			if drop {
+				// generated but not claimed: not proved, but (like a failed obligation) assumed by the obligations after it;
+				// it is listed in the evidence as an unchecked assumption
 				g.excluded = append(g.excluded, o.name)
-			} else {
-				kept = append(kept, o)
+				o.excluded = true
 			}
+			kept = append(kept, o)
 		}
 		g.obls = kept
 	}
